@@ -20,12 +20,13 @@ THEOREMS = [
 ]
 HARNESS = dict(C12.HARNESS)
 STATELESS = True
-RULE = ("every savefile of C12's state space (fourteen generated applications x states reached by parameter messages, biased "
+RULE = ("every savefile of C12's state space (seventeen generated applications x states reached by parameter messages, biased "
         "towards enabling toggles, preset ports and their dependants, walks down dependency chains that leave intermediate ports "
         "at their defaults, enable-then-set sequences; +infinity excluded: such a file does not scan, C12-K9) is split into "
         "messages with the library's own scanner and loaded in every permutation of its messages (exhaustive up to 6 messages = "
-        "up to 720 loads per case, 40..200 pseudo-random permutations beyond); constructs: rEnabledBy on sub-trees and on "
-        "parameters, sub-trees enabled by a toggle of their own (rRecur(sub, rEnabledBy(sub/t)), rSelf(T, rEnabledBy(t))), "
+        "up to 720 loads per case, 40..200 pseudo-random permutations beyond; NaN without sign bit and rArrayOption elements "
+        "outside the options excluded like +infinity: C12-K9, C12-K10); constructs: rEnabledBy on sub-trees and on "
+        "parameters (naming toggles, int and option ports), rArrayOption, arrays of 128 and 256 elements, sub-trees enabled by a toggle of their own (rRecur(sub, rEnabledBy(sub/t)), rSelf(T, rEnabledBy(t))), "
         "rDefaultDepends chains up to 7 deep, rDepends on parameters and sub-trees with lists up to 16 entries, "
         "preset-dependent array defaults, ports with the enumeration inside their name, sibling names that extend each other; "
         "every load is also observed through a counting savefile_dispatcher_t: each message of the file is handed to the "
@@ -52,10 +53,10 @@ LEVEL_TEXT = ("Lean theorems: Kahn's algorithm as written outputs every message 
               "dependant takes its default from the final state in both orders), so independent lines commute; hence for "
               "every permutation of a file satisfying FileOK the "
               "loaded state and count are equal (the count clause is trivial: it is the number of lines). The hypotheses hold "
-              "for all fourteen generated applications (evaluated on every run; among them the three with sub-trees "
+              "for all seventeen generated applications (evaluated on every run; among them the three with sub-trees "
               "enabled by a toggle of their own: refsOf reads the `self:` port of every level's table and a path does not "
               "refer to itself, as in the repaired scan_deps - and the five with rDepends lists naming mutually independent "
-              "ports or preset-dependent array defaults); all fourteen are compared with the "
+              "ports or preset-dependent array defaults); all seventeen are compared with the "
               "implementation on all permutations of generated savefiles")
 LEVEL_NOTE = ("the port lookup of scan_deps (Ports::apropos / port_of_path) enters as a hypothesis (MetaCovers) that is checked "
               "per application and by correspondence; see C18. The application's behaviour (change hooks re-apply the defaults "
